@@ -157,6 +157,17 @@ func collectRefAtoms(s *sx, out map[string]bool) {
 		return
 	}
 	h := s.head()
+	if h == "select" && len(s.kids) == 3 && !isElemArray(s.kids[1]) {
+		// field read x.f: x is a reference of interest
+		k := s.kids[2]
+		if k.isAtom() && refAtomRe.MatchString(k.atom) && !anyBoundRe.MatchString(k.atom) {
+			out[k.atom] = true
+		} else if k.head() == "select" && len(k.kids) == 3 && isElemArray(k.kids[1]) && closed(k, map[string]bool{}) {
+			if str := k.String(); len(str) < 400 {
+				out[str] = true
+			}
+		}
+	}
 	if h == "=" || strings.HasPrefix(h, "app") || strings.HasPrefix(h, "uf_") || strings.HasPrefix(h, "pure") || strings.HasPrefix(h, "op_") {
 		for _, k := range s.kids[1:] {
 			// element reads compared with / passed to something: the element is a reference term too
@@ -535,7 +546,50 @@ func containsQuant(s *sx) bool {
 
 // preprocess returns the transformed hypotheses (original + instances), the skolemised goal and
 // extra declarations.
-func preprocess(pc []string, goal string, mode Mode) (hyps []string, newGoal string, extraDecls []string) {
+// termIsInt: the term is known to have sort Int (a declared Int constant, a skolem of an Int binder,
+// or an element read from a memory whose element sort is Int).
+func termIsInt(t *sx, declSorts map[string]string, extraDecls []string) bool {
+	if t.isAtom() {
+		if s, ok := declSorts[t.atom]; ok {
+			return s == "Int"
+		}
+		for _, d := range extraDecls {
+			if strings.HasPrefix(d, "(declare-const "+t.atom+" ") {
+				return strings.HasSuffix(d, " Int)")
+			}
+		}
+		return false
+	}
+	if t.head() == "select" && len(t.kids) == 3 {
+		// (select (select M b) i) / (select arr i): find the array symbol
+		a := t.kids[1]
+		depth := 1
+		for a.head() == "select" && len(a.kids) == 3 {
+			a = a.kids[1]
+			depth++
+		}
+		for a.head() == "store" && len(a.kids) == 4 {
+			a = a.kids[1]
+		}
+		if a.isAtom() {
+			s, ok := declSorts[a.atom]
+			if !ok {
+				return false
+			}
+			p := mustParse(s)
+			for i := 0; i < depth; i++ {
+				if p.head() != "Array" || len(p.kids) != 3 {
+					return false
+				}
+				p = p.kids[2]
+			}
+			return p.String() == "Int"
+		}
+	}
+	return false
+}
+
+func preprocess(pc []string, goal string, mode Mode, declSorts map[string]string) (hyps []string, newGoal string, extraDecls []string) {
 	idxSort := "Int"
 	if mode == ModeBV {
 		idxSort = "(_ BitVec 64)"
@@ -677,7 +731,7 @@ func preprocess(pc []string, goal string, mode Mode) (hyps []string, newGoal str
 			collectRefAtoms(a, rs)
 		}
 		for _, k := range sortedKeys(rs) {
-			if len(refCands) < 8 {
+			if len(refCands) < 8 && termIsInt(mustParse(k), declSorts, extraDecls) {
 				refCands = append(refCands, mustParse(k))
 			}
 		}
